@@ -688,3 +688,189 @@ def pfx1(units, R):
                  'the result at line %d can be non-zero when %s merely starts with the same characters as %s ("/ab" vs "/a"): the byte '
                  'after the prefix is not compared with \'/\'' % (bad.line, longer, sl), key='prefix:%s:%s' % (longer, sl))
     R.note('PFX1: %d prefix comparison(s) between pointer texts' % n)
+
+
+# ---- GEN1: the generator drops no difference for reasons outside the two documents ----------------------------------------
+
+def _range_decides(u, e):
+    """True / False when the comparison e has that value for every value of its (unsigned) operand's type, else None"""
+    e = strip_casts(e)
+    if e.get('k') != 'bin' or e['op'] not in ('<', '<=', '>', '>='):
+        return None
+    for (x, c, flip) in ((e['l'], e['r'], False), (e['r'], e['l'], True)):
+        v = const_val(c)
+        x0 = strip_casts(x)
+        if v is None or const_val(x) is not None:
+            continue
+        t = u.ty(x0.get('ty0', x0.get('ty')))
+        if t['c'] != 'int' or not t.get('unsigned') or not t.get('bits'):
+            continue
+        lo, hi = 0, (1 << t['bits']) - 1
+        op = e['op']
+        if flip:
+            op = {'<': '>', '<=': '>=', '>': '<', '>=': '<='}[op]
+        if v < 0:
+            v += 1 << 64
+        res = {'>': (lo > v, hi > v), '>=': (lo >= v, hi >= v), '<': (lo < v, hi < v), '<=': (lo <= v, hi <= v)}[op]
+        if res[0] == res[1]:
+            return res[0]
+    return None
+
+
+def gen1(units, R):
+    """create_patches (the self-recursive function the GeneratePatches entry points hand their fresh array to): a branch whose
+    condition is not computed from the two documents - not a parameter `from`/`to`, nothing assigned from them - and is not the
+    NULL test of a fresh allocation, must not have an edge from which the function can only leave without emitting (no call that
+    receives the patch array) while the other edge can still emit: such a branch drops differences for a reason that is not in
+    the documents (a depth budget, a flag, a counter)."""
+    u = units['cJSON_Utils.c']
+    entries = [f for f in u.function_list if f.name in ('cJSONUtils_GeneratePatches', 'cJSONUtils_GeneratePatchesCaseSensitive')]
+    if not entries:
+        raise AnalysisBroken('GEN1: patch generation entry points not found')
+    n = 0
+    gens = {}
+    for ent in entries:
+        docs = [p['d'] for p in ent.params[:2]]
+        for c in ent.calls():
+            h = u.functions.get(callee_name(c))
+            if h is None or not h.static or not any(callee_name(x) == h.name for x in h.calls()):
+                continue
+            roles = {}
+            for p, a in zip(h.params, c['args']):
+                a0 = strip_casts(a)
+                if a0.get('k') == 'ref' and a0.get('d') in docs:
+                    roles[p['d']] = 'doc'
+                elif a0.get('k') == 'ref' and a0.get('dk') == 'local' and u.ty(p['ty'])['c'] == 'ptr':
+                    roles[p['d']] = 'patches'
+            if list(roles.values()).count('doc') == 2 and 'patches' in roles.values():
+                gens[h.name] = (h, roles)
+    if not gens:
+        raise AnalysisBroken('GEN1: no recursive generator receives the two documents and the patch array')
+    for (h, roles) in gens.values():
+        cfg = h.cfg()
+        patches = {d for d, r in roles.items() if r == 'patches'}
+        tainted = {d for d, r in roles.items() if r == 'doc'}
+        fresh = set()
+        changed = True
+        while changed:
+            changed = False
+            pairs = [(strip_casts(a['l']), a['r']) for a in assignments(h) if strip_casts(a['l']).get('k') == 'ref']
+            pairs += [({'d': d['d']}, d['init']) for d in h.locals() if 'init' in d]
+            for l, r in pairs:
+                if l['d'] in tainted:
+                    continue
+                if any(x.get('k') == 'ref' and x.get('d') in tainted for x in walk(r)):
+                    tainted.add(l['d'])
+                    changed = True
+        for d in h.locals():
+            srcs = [d['init']] if 'init' in d else []
+            srcs += [a['r'] for a in assignments(h) if strip_casts(a['l']).get('k') == 'ref' and strip_casts(a['l'])['d'] == d['d']]
+            if srcs and u.ty(d['ty'])['c'] == 'ptr' and all(strip_casts(s).get('k') == 'call' or is_null_const(s) or strip_casts(s).get('null') for s in srcs) \
+                    and any(strip_casts(s).get('k') == 'call' for s in srcs):
+                fresh.add(d['d'])
+        emit_nodes = set()
+        for m in cfg.nodes:
+            root = m.expr if m.expr is not None else (m.decl.get('init') if m.kind == 'decl' and m.decl else None)
+            if root is None:
+                continue
+            for c in walk(root):
+                if c.get('k') == 'call' and any(x.get('k') == 'ref' and x.get('d') in patches for a in c['args'] for x in walk(a)):
+                    emit_nodes.add(m.id)
+        if not emit_nodes:
+            raise AnalysisBroken('GEN1: %s emits nothing' % h.name)
+        can_emit = set()
+        for e in emit_nodes:
+            can_emit |= cfg.reachable(e, forward=False) | {e}
+        for m in cfg.nodes:
+            if m.kind != 'branch':
+                continue
+            e = strip_casts(m.expr)
+            refs = [x for x in walk(e) if x.get('k') == 'ref' and x.get('dk') in ('local', 'param')]
+            if any(x['d'] in tainted for x in refs):
+                continue
+            n += 1
+            if refs and all(x['d'] in fresh for x in refs):
+                R.ob('GEN1', h, e, 'branch on %s is the NULL test of a fresh allocation' % expr_str(e)[:50], True, 'allocation failure', key='alloc:%s' % expr_str(e)[:40])
+                continue
+            silent = []
+            loud = []
+            for (y, l) in cfg.succ[m.id]:
+                if l is not None and l[0] in ('T', 'F') and _range_decides(u, e) == (l[0] != 'T'):
+                    continue        # the edge cannot be taken: the comparison is settled by the range of the operand's type
+                (loud if (y in can_emit) else silent).append((y, l))
+            bad = bool(silent) and bool(loud)
+            R.ob('GEN1', h, e, 'the condition %s, which does not come from the two documents, does not decide whether differences are reported' % expr_str(e)[:50],
+                 not bad, 'both edges can still emit' if not bad else
+                 'on its %s edge %s returns without emitting anything, whatever the documents contain' % (
+                     'true' if silent[0][1] and silent[0][1][0] == 'T' else 'false', h.name), key='foreign:%s' % expr_str(e)[:40])
+    R.note('GEN1: %d branch conditions of the generator do not depend on the documents' % n)
+    R.ob('GEN1', None, None, 'generator branches examined', True, '%d functions, %d conditions outside the documents' % (len(gens), n),
+         key='census', file='cJSON_Utils.c', line=0)
+
+
+# ---- DIG1: digit-counting loops agree with their radix ----------------------------------------------------------------------
+
+def dig1(units, R, unit_names=('cJSON.c', 'cJSON_Utils.c')):
+    """A loop whose body only divides x by a constant K and adds one to a counter counts the digits of x in radix K.  It must
+    run while x still has more than one digit (x >= K, x > K - 1) or while x is not zero (x != 0, x > 0, x); any other threshold
+    counts something that is not the number of digits the digit writer (x % K) will produce.  The tree has no such loop today;
+    the rule is kept armed by a fixture."""
+    n = 0
+    for un in unit_names:
+        u = units[un]
+        for fn in u.function_list:
+            for lp in fn.nodes():
+                if lp.get('k') not in ('while', 'for') or 'c' not in lp or lp.get('body') is None:
+                    continue
+                body = lp['body']
+                stmts = list(body['body']) if body.get('k') == 'compound' else [body]
+                if lp.get('k') == 'for' and lp.get('inc') is not None:
+                    stmts = stmts + [lp['inc']]
+                divs, incs, other = [], [], 0
+                flat = []
+                for st in stmts:
+                    e = st.get('e', st) if st.get('k') == 'exprstmt' else st
+                    e = strip_casts(e)
+                    # (void)a, b  comma lists
+                    work = [e]
+                    while work:
+                        x = strip_casts(work.pop())
+                        if x.get('k') == 'bin' and x.get('op') == ',':
+                            work += [x['l'], x['r']]
+                        else:
+                            flat.append(x)
+                for x in flat:
+                    if x.get('k') == 'bin' and x.get('op') == '/=' and strip_casts(x['l']).get('k') == 'ref' and const_val(x['r']) is not None:
+                        divs.append((strip_casts(x['l'])['d'], const_val(x['r'])))
+                    elif x.get('k') == 'bin' and x.get('op') == '=' and strip_casts(x['l']).get('k') == 'ref' and \
+                            strip_casts(x['r']).get('k') == 'bin' and strip_casts(x['r'])['op'] == '/' and \
+                            strip_casts(strip_casts(x['r'])['l']).get('d') == strip_casts(x['l'])['d'] and const_val(strip_casts(x['r'])['r']) is not None:
+                        divs.append((strip_casts(x['l'])['d'], const_val(strip_casts(x['r'])['r'])))
+                    elif x.get('k') == 'un' and x.get('op') in ('post++', 'pre++', '++') and strip_casts(x['e']).get('k') == 'ref':
+                        incs.append(strip_casts(x['e'])['d'])
+                    elif x.get('k') == 'bin' and x.get('op') == '+=' and const_val(x['r']) == 1 and strip_casts(x['l']).get('k') == 'ref':
+                        incs.append(strip_casts(x['l'])['d'])
+                    else:
+                        other += 1
+                if len(divs) != 1 or len(incs) != 1 or other or divs[0][1] < 2 or incs[0] == divs[0][0]:
+                    continue
+                xd, K = divs[0]
+                c = strip_casts(lp['c'])
+                thr = None
+                if c.get('k') == 'ref' and c.get('d') == xd:
+                    thr = ('!=', 0)
+                elif c.get('k') == 'bin' and c.get('op') in ('>', '>=', '!=') and strip_casts(c['l']).get('d') == xd and const_val(c['r']) is not None:
+                    thr = (c['op'], const_val(c['r']))
+                elif c.get('k') == 'bin' and c.get('op') in ('<', '<=') and strip_casts(c['r']).get('d') == xd and const_val(c['l']) is not None:
+                    thr = ({'<': '>', '<=': '>='}[c['op']], const_val(c['l']))
+                if thr is None:
+                    continue
+                n += 1
+                ok = thr in (('>=', K), ('>', K - 1), ('!=', 0), ('>', 0), ('>=', 1))
+                R.ob('DIG1', fn, lp['c'], 'the loop counting the digits of %s in radix %d runs while more digits remain' % (
+                    expr_str(strip_casts(c['l'])) if c.get('k') == 'bin' else expr_str(c), K), ok,
+                    'condition %s' % expr_str(c) if ok else
+                    'condition %s: with a division by %d the count is one short for values whose leading digits are exactly %d (10, 100..109, ...)'
+                    % (expr_str(c), K, thr[1]) if thr[0] in ('>', '>=') and thr[1] >= K else 'condition %s does not match the division by %d' % (expr_str(c), K),
+                    key='digits:%s:%d' % (fn.name, K))
+    R.ob('DIG1', None, None, 'digit-counting loops examined', True, '%d loops' % n, key='census', file='cJSON_Utils.c', line=0)
